@@ -273,3 +273,14 @@ func cmdDeterminism(id string, nseeds int, seed int64) int {
 	}
 	return 0
 }
+
+// raceRelevant: a report counts for the property only if one of its stacks is
+// in the capture code of processFrame or in a metadata / fingerprint reader.
+func raceRelevant(id, rep string) bool {
+	for _, k := range []string{"pkg/metadata.", "pkg/fingerprint.", "(*serverConn).processFrame"} {
+		if strings.Contains(rep, k) {
+			return true
+		}
+	}
+	return false
+}
